@@ -2,7 +2,7 @@
 from ..core import hx
 from . import _scn
 ID = "C16"
-PROPS = ["F1Verif.Props.C16", "F1Verif.Props.FactsC16", "F1Verif.Props.RefineC17Run", "F1Verif.Props.RefineC05R", "F1Verif.Props.RefineC05U"]
+PROPS = ["F1Verif.Props.C16", "F1Verif.Props.FactsC16", "F1Verif.Props.RefineC17Run", "F1Verif.Props.RefineC05R", "F1Verif.Props.RefineC05U", "F1Verif.Props.RefineC08X"]
 ALSO = ["F1Verif.Props.C01"]
 RULE = ("engine A: metrics.NewInstance on a private registry with generated static-label maps (valid label names; keys "
         "that are prefixes of other keys with digit / underscore suffixes, values that sort against their keys, values "
